@@ -8,12 +8,12 @@ import (
 	rt "github.com/Azbesciak/RealDecisionMaker/lib/zz_verifrt"
 )
 
-//verif:bounds C01 HC01_satisfaction: A<=3 (quick) / A<=4 (thorough) known alternatives, K<=2 / K<=3, currentChoice absent / first / last considered / known-not-considered, explicit levels (0..2 / 0..3) or generated series, fixed and seeded-random order
+//verif:bounds C01 HC01_satisfaction: A<=3 (quick) / A<=4 (thorough) known alternatives, K<=2, currentChoice absent / first / last considered / known-not-considered, explicit levels (0..2 / 0..3) or generated series, fixed and seeded-random order
 
 //verif:harness HC01_satisfaction mode=REAL reach=cc-considered,shuffled
 func HC01_satisfaction() {
 	shuffle := rt.Bool("shuffle")
-	s := c13build(rt.Pick(3, 4), rt.Pick(2, 3), rt.Pick(2, 3), shuffle)
+	s := c13build(rt.Pick(3, 4), 2, rt.Pick(2, 3), shuffle)
 	h := NewSatisfaction(rt.Generators, c13sources)
 	r := h.Evaluate(s.dmp)
 	vh.WellFormed("C01.satisfaction", r, s.expectedIds)
